@@ -188,6 +188,8 @@ class BaseComponent(Manager):
             self.parent = self
 
         self._updateRoot(self)
+        # A root again: handlers cached while this component last was a root are stale
+        self._cache_needs_refresh = True
         return self
 
     def _updateRoot(self, root):
